@@ -184,6 +184,17 @@ func (f *g2lFn) call(b *binds, e *ast.CallExpr) string {
 			return "(" + p + " " + strings.Join(f.args(b, e), " ") + ")"
 		}
 	}
+	if sel, ok := e.Fun.(*ast.SelectorExpr); ok {
+		if tv, ok := f.p.info.Types[sel.X]; ok && tv.Type != nil && isBytesBuffer(tv.Type) {
+			switch sel.Sel.Name {
+			case "String", "Bytes":
+				return f.expr(b, sel.X)
+			case "Len":
+				return "(len " + f.expr(b, sel.X) + ")"
+			}
+			f.bad(e, "bytes.Buffer method %s in an expression", sel.Sel.Name)
+		}
+	}
 	// interface method call r.ReadHashes(x): the value is a function
 	if sel, ok := e.Fun.(*ast.SelectorExpr); ok {
 		if s, ok := f.p.info.Selections[sel]; ok && s.Kind() == types.MethodVal {
@@ -272,6 +283,29 @@ func (f *g2lFn) callFn(b *binds, callee *g2lFn, args []string, at ast.Node) stri
 		f.fuel = true
 		pre = append(pre, "fuel")
 	}
+	if callee.inoutName != "" {
+		// the callee returns its mutated map/pointer parameter as an extra last result: rebind the caller's variable
+		target := args[callee.inoutIdx]
+		if !isSimpleTerm(target) {
+			f.bad(at, "in-out argument %s is not a variable", target)
+		}
+		var call string
+		if callee == f {
+			call = "(" + callee.leanName + " \x00ABS\x00fuel " + strings.Join(args, " ") + ")"
+			f.rec, f.fuel, f.pure = true, true, false
+		} else {
+			call = "(" + callee.leanName + " " + strings.Join(append(pre, args...), " ") + ")"
+		}
+		var t string
+		if callee == f || !callee.pure {
+			t = f.bindM(b, call)
+		} else {
+			t = call
+		}
+		r := f.fresh("io")
+		b.add(fmt.Sprintf("let (%s, %s) := %s", r, target, t))
+		return r
+	}
 	if callee == f {
 		f.rec = true
 		f.fuel = true
@@ -331,6 +365,9 @@ func (f *g2lFn) varName(o types.Object) string {
 }
 
 func (f *g2lFn) retTerm(vals string) []string {
+	if f.inoutName != "" {
+		vals = "(" + vals + ", " + f.inoutName + ")"
+	}
 	if f.effType != "" {
 		vals = "(" + vals + ", effLog)"
 	}
@@ -490,6 +527,22 @@ func (f *g2lFn) stmts(list []ast.Stmt, k kont) []string {
 		}
 		return append(b.lines, f.retTerm(vals)...)
 	case *ast.BranchStmt:
+		if s.Tok == token.GOTO && s.Label != nil {
+			// forward goto to a label at the top level of the function body: the rest of the function, from the label on
+			idx, ok := f.labels[s.Label.Name]
+			if !ok {
+				f.bad(s, "goto %s (only top-level labels)", s.Label.Name)
+			}
+			savedLoop, savedBrk := f.inLoop, f.brk
+			f.inLoop, f.brk = nil, nil
+			code := f.stmts(f.fd.Body.List[idx:], f.endK)
+			f.inLoop, f.brk = savedLoop, savedBrk
+			if savedLoop == nil {
+				return code
+			}
+			r := f.fresh("g")
+			return []string{fmt.Sprintf("let %s ← %s", r, f.paren(code)), "pure (Ctl.ret " + r + ")"}
+		}
 		if s.Label != nil {
 			f.bad(s, "labelled %s", s.Tok)
 		}
@@ -531,6 +584,8 @@ func (f *g2lFn) stmts(list []ast.Stmt, k kont) []string {
 		return f.rangeStmt(s, rest)
 	case *ast.EmptyStmt:
 		return rest()
+	case *ast.LabeledStmt:
+		return f.stmts(append([]ast.Stmt{s.Stmt}, list[1:]...), k)
 	case *ast.DeferStmt:
 		fl, ok := s.Call.Fun.(*ast.FuncLit)
 		if !ok || len(s.Call.Args) != 0 || f.deferBody != nil || !f.named || f.inLoop != nil || containsReturn(fl.Body) {
@@ -641,6 +696,22 @@ func (f *g2lFn) assignedOuter(nodes []ast.Node, before token.Pos) []*types.Var {
 			case *ast.IncDecStmt:
 				add(n.X)
 			case *ast.CallExpr:
+				if sel, ok := n.Fun.(*ast.SelectorExpr); ok {
+					if id, ok := sel.X.(*ast.Ident); ok {
+						if tv, ok := f.p.info.Types[id]; ok && tv.Type != nil && isBytesBuffer(tv.Type) && strings.HasPrefix(sel.Sel.Name, "Write") {
+							add(id)
+						}
+						// a call to an in-out method assigns to its receiver
+						if s, ok := f.p.info.Selections[sel]; ok && s.Kind() == types.MethodVal {
+							rt := s.Recv()
+							if n2, ok := rt.(*types.Named); ok {
+								if _, ok := f.u.inout[n2.Obj().Name()+"."+sel.Sel.Name]; ok {
+									add(id)
+								}
+							}
+						}
+					}
+				}
 				// copy(dst[...], src) assigns to dst
 				if id, ok := n.Fun.(*ast.Ident); ok && id.Name == "copy" && len(n.Args) == 2 {
 					if se, ok := n.Args[0].(*ast.SliceExpr); ok {
@@ -1054,6 +1125,19 @@ func (f *g2lFn) exprStmtCall(c *ast.CallExpr) ([]string, bool) {
 			return append(b.lines, fmt.Sprintf("let %s ← copyAt %s %s %s", f.name(base), f.name(base), lo, src)), true
 		}
 		return nil, false
+	}
+	if sel, ok := c.Fun.(*ast.SelectorExpr); ok {
+		if id, ok := sel.X.(*ast.Ident); ok && isBytesBuffer(f.typeOf(id)) && len(c.Args) == 1 {
+			x := f.expr(&b, c.Args[0])
+			switch sel.Sel.Name {
+			case "WriteString", "Write":
+				return append(b.lines, fmt.Sprintf("let %s := %s ++ %s", f.name(id), f.name(id), x)), true
+			case "WriteByte":
+				return append(b.lines, fmt.Sprintf("let %s := %s ++ [mkByte %s]", f.name(id), f.name(id), x)), true
+			case "WriteRune":
+				return append(b.lines, fmt.Sprintf("let %s := %s ++ encodeRune %s", f.name(id), f.name(id), x)), true
+			}
+		}
 	}
 	if sel, ok := c.Fun.(*ast.SelectorExpr); ok {
 		if _, ok := f.u.effects[sel.Sel.Name]; ok {
